@@ -86,7 +86,7 @@ def ns_quadrature(logLs, nlives, expectation="logt", finalised=True):
     return out
 
 
-def standard_result_facts(fs, obs):
+def standard_result_facts(fs, obs, expectation=None):
     """Booleans for C05 on a finished standard run (recomputed from the
     returned samples alone)."""
     ns = fs.ns
@@ -103,7 +103,7 @@ def standard_result_facts(fs, obs):
     # schedule implied by the samples alone: it entries with nlive, then nlive..1
     nl = [nlive] * min(it, n) + [nlive - i for i in range(max(0, n - it))]
     try:
-        q = ns_quadrature(L, nl, expectation=ns.state.expectation, finalised=fin)
+        q = ns_quadrature(L, nl, expectation=expectation or ns.state.expectation, finalised=fin)
         facts["logZ_ok"] = close(fs.logZ, q["logZ"]) and close(ns.log_evidence, q["logZ"])
         err = math.sqrt(max(float(q["info"]), 0.0) / nlive) if float(q["info"]) >= 0 else float("nan")
         facts["logZ_err_ok"] = close(fs.logZ_error, err, 1e-7) and close(ns.state.log_evidence_error, err, 1e-7)
